@@ -13,6 +13,35 @@ pub enum Val {
     Tup(Vec<Val>),
     Tag(u32, Box<Val>),
     Count(usize),
+    /// a value whose destructor is audible: the original rings when dropped, clones are mute
+    Bell(Bell),
+}
+
+/// Stand-in for a user value with a side effect on drop (a session, a lock file, a logger).
+/// When and whether a parser that owns one is destroyed becomes visible on stdout.
+#[derive(Debug)]
+pub struct Bell {
+    pub armed: bool,
+}
+
+impl Clone for Bell {
+    fn clone(&self) -> Self {
+        Bell { armed: false }
+    }
+}
+
+impl PartialEq for Bell {
+    fn eq(&self, _: &Bell) -> bool {
+        true
+    }
+}
+
+impl Drop for Bell {
+    fn drop(&mut self) {
+        if self.armed {
+            crate::world::noise("bell: a value owned by the parser was dropped\n");
+        }
+    }
 }
 
 impl fmt::Display for Val {
@@ -37,6 +66,7 @@ impl fmt::Display for Val {
             }
             Val::Tag(t, v) => write!(f, "#{}({})", t, v),
             Val::Count(n) => write!(f, "{}", n),
+            Val::Bell(_) => write!(f, "bell"),
         }
     }
 }
